@@ -524,7 +524,10 @@ MANIFEST = {
             "invocations (Bob killed at the k-th state update; scripts that exit 1 / kill themselves / kill Bob after half of "
             "their output) against the model with the corresponding fuel, and by an oracle that enumerates cut points, chains of "
             "aborts and follow-up projects (same / reverted / edited) and compares with the clean build; a fixed git scenario "
-            "covers SCM switch / attic move.",
+            "covers SCM switch / attic move.  Scenario families run first as a load-independent minimum: source edit -> "
+            "failing/killed run -> revert to byte-identical inputs, killed -f run -> same project without -f, scripts whose shell "
+            "dies from SIGKILL/SIGTERM while Bob survives (such an invocation must not exit 0 and the next one must re-execute "
+            "the step).",
     "note": "trusted: Lean kernel, harness/props/c05.py, harness/gen/buildsim*.py, tools/consts/c05.py, bash, process-kill "
             "semantics (completed file operations persist; machine crashes and the state-file commit are C10); the log-level "
             "statement no_false_uptodate is kept as goal (its two halves are proved)",
